@@ -51,6 +51,8 @@ DEFAULT_SPEC = {
     "long_locus": 0,       # 1: extra chromosome chrL with a > 64 kb read island that IsoQuant splits at a coverage valley
     "exp_bams": None,      # per-experiment number of files (overrides n_bams)
     "novel_one_file": 0,   # reads of unannotated isoforms all go to the first file of their experiment
+    "illumina": None,      # per-experiment list: 1 = the experiment comes with a short-read BAM (junction reads on the
+                           # chromosomes without annotation; some long reads there are 4 bp off at one splice site)
     "chr_naming": 0,       # 1: names with underscores and dots (NC_000067.6, chrUn_KI270, scaffold_12, ...)
     "split_gene": 0,       # 1: a gene whose two isoforms use disjoint exon sets, with another gene nested between them
     "decoy_chr": 0,        # 1: extra chromosome on which every alignment is filtered out (MAPQ 0, unspliced secondary, supplementary)
@@ -502,6 +504,20 @@ def generate(spec):
         rid += 1
         reads.append({"id": "r%04d" % rid, "src": "intergenic", "gene": None, "kind": "lowmapq",
                       "records": [mk_record(chroms[ci][0], [(60, 230)], "+", False, mapq=0)]})
+    if s.get("illumina") and s["drop_chr_annotation"]:
+        plain = [c for c, _ in chroms if c not in ("chrL", "chrT", "chrD", "NT_twin.1", "decoy_1")]
+        dropped_ = plain[len(plain) - s["drop_chr_annotation"]:]
+        for g in allgenes:
+            if g.chrom in dropped_ and len(g.exons) >= 2 and g.paralog_of is None and g.gid not in para_of \
+                    and not getattr(g, "annotation_only", False):
+                idx = g.isoforms[0][1]
+                blocks = [g.exons[i] for i in idx]
+                # the second exon starts 4 bp early: the intron ends 4 bp before the true (short-read) acceptor
+                blocks = [blocks[0], (blocks[1][0] - 4, blocks[1][1])] + blocks[2:]
+                for k in range(2):
+                    rid += 1
+                    reads.append({"id": "r%04d" % rid, "src": g.isoforms[0][0], "gene": g.gid, "kind": "off4",
+                                  "records": [mk_record(g.chrom, blocks, g.strand, False)]})
     for g in allgenes:
         if getattr(g, "shifted", None) and g.paralog_of is None and g.gid not in para_of:
             for k in range(max(4, s["novel_cov"])):
@@ -730,6 +746,33 @@ def build(spec, outdir, gtf_gz=False, write_bams=True):
     paths["group_table"] = table
     if not write_bams:
         return truth, paths
+    if s.get("illumina"):
+        sp = os.path.join(outdir, "illumina.bam")
+        recs = []
+        seqs = dict(truth["chroms"])
+        k = 0
+        for g in truth["genes"]:
+            if getattr(g, "annotation_only", False):
+                continue
+            ex = [g.exons[i] for i in g.isoforms[0][1]]
+            for (a, b), (c, d) in zip(ex[:-1], ex[1:]):
+                for rep in range(3):
+                    k += 1
+                    l1, l2 = min(60, b - a + 1), min(60, d - c + 1)
+                    recs.append((cidx[g.chrom], b - l1, [(0, l1), (3, c - b - 1), (0, l2)],
+                                 seqs[g.chrom][b - l1:b] + seqs[g.chrom][c - 1:c - 1 + l2], "sr%d" % k))
+        recs.sort(key=lambda x: (x[0], x[1]))
+        with pysam.AlignmentFile(sp, "wb", header={"HD": header["HD"], "SQ": header["SQ"]}) as out:
+            for ci_, pos, cig, sq, nm in recs:
+                a = pysam.AlignedSegment(out.header)
+                a.query_name, a.flag, a.reference_id, a.reference_start, a.mapping_quality = nm, 0, ci_, pos, 60
+                a.cigartuples = cig
+                a.query_sequence = sq
+                a.next_reference_id = -1
+                a.next_reference_start = -1
+                out.write(a)
+        pysam.index(sp)
+        paths["illumina"] = sp
     for e, exp in enumerate(truth["exps"]):
         efiles = []
         for fi, members in enumerate(exp["files"]):
@@ -786,7 +829,9 @@ def build(spec, outdir, gtf_gz=False, write_bams=True):
                     out.write(a)
             pysam.index(p)
             efiles.append(p)
-        paths["exps"].append({"name": exp["name"], "bams": efiles})
+        ill = s.get("illumina")
+        paths["exps"].append({"name": exp["name"], "bams": efiles,
+                              "illumina": [paths["illumina"]] if ill and e < len(ill) and ill[e] else None})
     return truth, paths
 
 
